@@ -68,7 +68,7 @@ func buildPlan(id string, pinned map[string]string, tier string) *Plan {
 			"ring predicates IsZero / Equal are uninterpreted: branch conditions are matched syntactically after polynomial normalisation"}
 		p.Assumptions = []string{"field facts not proved here: a product of non-zero elements is non-zero (so the exact scaling clauses show finiteness), 2 != 0, and the equal-point test on cross-multiplied coordinates decides equality of the represented affine points when both Z are non-zero"}
 		p.NotCovered = []string{"affine Add / Sub / Double carry the factor (Z*inv(Z))^k of the conversion from the intermediate Jacobian point and are stated under the code's own test that this Z is non-zero (that Z*inv(Z) = 1 then, and that Z = 2(x2-x1) is non-zero when x1 != x2, are field facts not proved here)",
-			"IsInSubGroup, batch conversions, stark-curve addition formulas (hand-written package with different parameter names: only its doubling formulas are under contract)",
+			"IsInSubGroup, batch conversions; stark-curve (hand-written package, a = 1): the Jacobian and extended-Jacobian additions, mixed additions, doublings, negation and conversions are under contract, its affine Add / Sub (built from FromAffine, AddAssign, FromJacobian) and the infinity branch of fromJacExtended are not",
 			"twisted-Edwards companions: not under contract", "numeric value of bCurveCoeff / bTwistCurveCoeff is not checked at the ring layer"}
 		p.Note = "Every branch of every Jacobian and extended-Jacobian addition, mixed addition, doubling, negation and conversion under contract returns a representative of the point prescribed by the chord-and-tangent law, for every representative of the inputs (all projective scalings), with the branch taken determined by the code's own zero/equality tests."
 		return p
